@@ -135,10 +135,21 @@ def main():
                      f"repeated target, loop index in the body, if/for nested in the body, element-wise array update) x ranges {families.FUN_LOOP_RANGES[args.tier]} "
                      f"x call forms {list(families.FUN_LOOP_CALLS)}; "
                      "the same function called at several places on different elements / slices / rows of the same arrays, on components of one class, "
-                     "in initial equations, if-branches and next to a loop; all numeric values unbounded reals")
+                     "in initial equations, if-branches and next to a loop; "
+                     f"whole-matrix equations with both sides of the same shape: shapes {families.MAT_SHAPES[args.tier]} (square, 1x1, non-square, single row/column) "
+                     f"x {len(families.MAT_RHS)} rhs forms {families.MAT_RHS} x positions {families.MAT_POSITIONS[args.tier]} "
+                     "(quick: every rhs form as a plain equation on the square shapes, every position on 2x2 representatives), plus rows / columns / "
+                     "square sub-blocks of square matrices read, written, equated to each other and inside for-loops; "
+                     f"functions with an if-statement: {len(families.FUN_IF_CONDS)} condition forms (relations combined with or/and/not so that the 0/1 encoding "
+                     f"takes the values 0..4) x {len(families.FUN_IF_SHAPES)} statement shapes {families.FUN_IF_SHAPES} x call forms {families.FUN_IF_CALLS} "
+                     f"(quick: all conditions x {families.FUN_IF_QUICK_SHAPES}, all shapes x conditions {families.FUN_IF_QUICK_CONDS}, all call forms on one representative; "
+                     "thorough: all conditions x all shapes x {plain, expr-arg}); branches that are singular where they are not taken are outside "
+                     "(every divisor is assumed non-zero); all numeric values unbounded reals")
     cov["struct_models"] = len([i for i in items if i[0] == "struct"])
     cov["loop_subscript_classes"] = {k: sum(1 for _, c in families.LOOP_SUBSCRIPTS if c == k)
                                      for k in sorted({c for _, c in families.LOOP_SUBSCRIPTS})}
+    cov["matrix_equation_models"] = len([i for i in items if i[0] == "struct" and i[1][0].startswith(("mat-eq[", "mat-sq["))])
+    cov["function_if_statement_models"] = len([i for i in items if i[0] == "struct" and i[1][0].startswith("fun-if[")])
     cov["explanation"] = "per residual element: z3 unsat of (impl != ref) under non-zero divisors; elementary functions uninterpreted"
     rep.assumptions += ["CasADi Function.expand() is trusted", "real arithmetic, not IEEE",
                         "sin/cos/exp/log/pow are uninterpreted functions shared by both sides",
